@@ -8,4 +8,5 @@ Extraction "c07_model.ml" conv vconv iconv data_converter tty_of_code code_of_tt
   spec_conv spec_text spec_text_char spec_text_flt
   traits value_convert_c value_convert_flt convertable_wrap metatype_wrap mw_ok iterator_consume_c cres_err fobs_err
   value_convert convert_int src_cty observe vret convert_string_full convert_float_text_r fgt spec_text_flt_r spec_other_to_number
+  src_val value_convert_a value_convert_flt_a iterator_consume_a
   N.add Z.of_nat Z.to_nat Z.opp.
